@@ -177,7 +177,7 @@ def run(tier):
     corpus = [common.corpus_path(s) for s in common.corpus()]
     glyphs_files = [s for s in corpus if s.endswith(".glyphs") and "include" not in open(s, errors="replace").read()]
     ufos = [s for s in corpus if s.endswith(".ufo")]
-    gen_static = [s for s in gensrc.sources_for("C20", chk, 8 if nq else 150, fams=["static-basic", "static-noorder", "kern-static", "c06-partial-notdef-mid", "c06-full-notdef-first", "c17-special-static"]) if s.endswith(".ufo")]
+    gen_static = [s for s in gensrc.sources_for("C20", chk, 8 if nq else 150, fams=["static-basic", "c20-source-flags", "static-noorder", "kern-static", "c20-source-flags", "c06-partial-notdef-mid", "c06-full-notdef-first", "c17-special-static"]) if s.endswith(".ufo")]
     # generated designs rendered as Glyphs 3 files (no manifest next to them: every route compiles them with default flags)
     import sys
     sys.path.insert(0, common.ROOT)
